@@ -8,6 +8,10 @@ func init() {
 			c.Confinement("C04")
 			c.WhoWrites("C04")
 			c.LockerInternals("C04")
+			c.RulerKeyAgreement("C04")
+			c.SigningRootProvenance("C04")
+			c.ScatterIndexDiscipline("C04")
+			c.ForkJoinRules("C04")
 			c.GateTypestate("C04")
 		},
 		Explanation: "Conservative two-phase locking, decided structurally: every request that can touch a watermark locks each of its keys (keyed by the same bytes as the database key) before the first read and releases them by defer after the last write; nothing reads or writes watermarks outside such a region. See DESIGN.md §5 C04.",
